@@ -155,6 +155,7 @@ type LoopSpec struct {
 	IterEnsures []string // properties of the events of one iteration (evaluated over that iteration's events only)
 	Exit      []string // what holds when the loop condition fails (proved from the invariant and the negated condition): pins the number of iterations
 	Name      string
+	EvOrd     int  // ordinal used in the summary event's name when the contract was re-bound to a moved loop (0 = the loop's own; else ordinal+1)
 }
 
 type Hooks struct {
@@ -750,7 +751,11 @@ func (x *Exec) block(st *State, b *ssa.BasicBlock, pred *ssa.BasicBlock, k Cont)
 		st.InLoop = append(st.InLoop, b.Index)
 		fr.LoopMark[b.Index] = len(st.Events)
 		// summary marker for events of completed iterations
-		st.Events = append(st.Events, Event{Name: fmt.Sprintf("loop:L%d", ord), Loop: ls.Name, Held: st.heldList()})
+		evOrd := ord
+		if ls.EvOrd > 0 {
+			evOrd = ls.EvOrd - 1
+		}
+		st.Events = append(st.Events, Event{Name: fmt.Sprintf("loop:L%d", evOrd), Loop: ls.Name, Held: st.heldList()})
 		fr.LoopMark[b.Index] = len(st.Events)
 		x.instrs(st, b, x.firstNonPhi(b), k)
 		return
